@@ -128,7 +128,7 @@ def enc_sels(labels, sels):
 def seq_level(ctx, ff, vals, note):
     """1-D sequence: implementation vs model vs proved specifications"""
     da = seq_da(vals)
-    m_lin, s_lin, m_ang, m_sec, s_gap, s_arc = core.dec_nums(ctx.model("c18_seq", enc_list([enc_nums(vals)])))
+    m_lin, s_lin, m_ang, m_sec, s_gap, s_arc, s_ang = core.dec_nums(ctx.model("c18_seq", enc_list([enc_nums(vals)])))
     case = {"values": vals, "note": note}
     i_lin = core.call_impl(ff.flip_flop_index, da, "t")
     i_ang = core.call_impl(ff.flip_flop_index, da, "t", is_angular=True)
@@ -158,6 +158,8 @@ def seq_level(ctx, ff, vals, note):
                 ctx.violation("flip_flop_index is zero exactly for monotone sequences", case, "zero" if mono else "positive", v)
         if finite and len(vals) >= 3 and i_ang[0] == "ok":
             v = float(i_ang[1])
+            if not core.close(v, s_ang):
+                ctx.violation("angular flip_flop_index differs from (sum of circular differences - min(360 - largest gap, 180))/(N-2)", case, str(s_ang), v)
             if v < -1e-9 or v > 180 * (len(vals) - 1) / (len(vals) - 2) + 1e-9:
                 ctx.violation("angular flip_flop_index outside its range", case, "0 <= v", v)
 
@@ -252,12 +254,17 @@ def array_level(ctx, ff, rng, i):
         ok, why = core.compare_dataset(impl, m, list(sels))
         ctx.count("ff_selections")
         # selections = index of the selected sub-sequence (relation between public calls)
-        if impl[0] == "ok":
-            for name, vals in sels.items():
-                sub = da.sel({sd: vals})
-                direct = ff.flip_flop_index(sub, sd, is_angular=angular)
-                if not np.allclose(np.asarray(direct.values, float), np.asarray(impl[1][name].transpose(*direct.dims).values, float), rtol=1e-9, atol=1e-12, equal_nan=True):
-                    ctx.violation("selection differs from the index of the selected sub-sequence", dict(desc, selection=name), str(direct.values), str(impl[1][name].values))
+        for name, vals in sels.items():
+            direct = core.call_impl(lambda: ff.flip_flop_index(da.sel({sd: vals}), sd, is_angular=angular))
+            if direct[0] == "err":
+                if impl[0] == "ok" and not bad_dim:
+                    ctx.violation("a selection with a label that is not on the sampling dimension must raise", dict(desc, selection=name), direct[1], "a value")
+                continue
+            if impl[0] != "ok":
+                continue
+            got = impl[1][name]
+            if set(got.dims) != set(direct[1].dims) or not np.allclose(np.asarray(direct[1].values, float), np.asarray(got.transpose(*direct[1].dims).values, float), rtol=1e-9, atol=1e-12, equal_nan=True):
+                ctx.violation("selection differs from the index of the selected sub-sequence", dict(desc, selection=name), str(direct[1].values), str(got.values))
     ctx.count("ok" if impl[0] == "ok" else impl[1])
     nontrivial = impl[0] == "ok" and (bool(np.isfinite(np.asarray(impl[1].to_array() if isinstance(impl[1], xr.Dataset) else impl[1])).any()))
     ctx.case(desc, nontrivial)
@@ -351,7 +358,7 @@ def run(ctx):
                 continue
             seq_level(ctx, ff, [grid[k] for k in combo], "grid45")
     ctx.count("grid45_sequences", ctx.evaluations)
-    for i in range(ctx.n(250, 3000)):
+    for i in range(ctx.n(500, 8000)):
         if not ctx.time_left():
             break
         angular = rng.random() < 0.5
@@ -369,15 +376,15 @@ def run(ctx):
                 rotation(ctx, ff, vals, rng)
             else:
                 invariances(ctx, ff, vals, rng)
-    for i in range(ctx.n(120, 1500)):
+    for i in range(ctx.n(250, 4000)):
         if not ctx.time_left():
             break
         array_level(ctx, ff, rng, i)
-    for i in range(ctx.n(80, 1000)):
+    for i in range(ctx.n(160, 2500)):
         if not ctx.time_left():
             break
         sector_level(ctx, ff, rng, i)
-    for i in range(ctx.n(100, 1200)):
+    for i in range(ctx.n(200, 3000)):
         if not ctx.time_left():
             break
         prop_level(ctx, ff, rng, i)
